@@ -15,6 +15,7 @@ for f in sorted(os.listdir('/verif/mutants')):
     if m: print(f, rev[m.group(1)])
 PY
 while read -r PATCH CHECKS; do
+  case "$PATCH" in m_benign_*|*.orig-before-*) continue;; esac   # benign rewrites: tools/audit_benign.sh
   if [ "$CHECKS" = "NONE" ]; then
     # a change that stays within the statement: run the nearest checks, none may alarm
     case "$PATCH" in *c09*) CHECKS="C09";; *c17*) CHECKS="C17";; *c15*) CHECKS="C15";; esac
